@@ -1,4 +1,5 @@
 HARNESS = "c05"
+STALE_RERUN = True   # operands also re-run as stale external polynomials (see check)
 LEVEL = "translation_validation"
 TIMEOUT = 900
 """C05 case generator: factorizations.  Every random choice comes from the one `rng` passed in.
